@@ -3234,10 +3234,9 @@ def numpy_power(v, expo):
     ):
 
         def numpy_power_impl(v, expo):
-            if expo == 2:
-                return v.tau2
-            else:
-                return v.tau**expo
+            # numpy.absolute(v) ** expo, as in the interpreter: for a spacelike
+            # vector tau is negative and tau**2 is not tau2
+            return v.tau**expo
 
         return numpy_power_impl
 
